@@ -110,6 +110,10 @@ func stepL(l Lst, op *Sx) string {
 			return Show(list.Head(l))
 		case "toseq":
 			return Show(l.ToSeq())
+		case "tailhd":
+			// Tail() without a preceding IsEmpty()/Head(): the only way to force a tail cell (and through it the
+			// lazy.Call cell of FlatMap) of a list whose head cell panicked (such a list says IsEmpty() = true)
+			return Show(list.Head(l.Tail()))
 		case "fold":
 			return Show(list.Fold(l, any(a[1].Int()), f2(a[2])))
 		case "foldleft":
@@ -234,24 +238,30 @@ func genLSource(r *Rng, inFlat bool) *Sx {
 	return L(A("lapply"), I(r.Range(-3, 9)), genLSource(r, inFlat))
 }
 
-func genLExpr(r *Rng, d int, inFlat bool) *Sx {
+func genLExpr(r *Rng, d int, inFlat, panicOK bool) *Sx {
 	if d <= 0 {
 		return genLSource(r, inFlat)
 	}
-	sub := func() *Sx { return genLExpr(r, d-1, inFlat) }
-	small := func() *Sx { return genLExpr(r, r.Intn(2), inFlat) }
+	sub := func() *Sx { return genLExpr(r, d-1, inFlat, panicOK) }
+	small := func() *Sx { return genLExpr(r, r.Intn(2), inFlat, panicOK) }
 	switch r.Intn(12) {
 	case 0, 1, 2:
-		return L(A("lmap"), sub(), GenF1(r, false))
+		return L(A("lmap"), sub(), GenF1(r, panicOK))
 	case 3, 4, 5:
 		var inner *Sx
 		switch r.Intn(4) {
 		case 0:
 			inner = L(A("larg"), I(r.Range(0, 3)))
 		case 1:
-			inner = L(A("lmap"), L(A("larg"), I(r.Range(0, 3))), GenF1(r, false))
+			inner = L(A("lmap"), L(A("larg"), I(r.Range(0, 3))), GenF1(r, panicOK))
 		default:
-			inner = genLExpr(r, 1, true)
+			inner = genLExpr(r, 1, true, panicOK)
+		}
+		if panicOK && r.Intn(3) == 0 {
+			// a function that itself panics while BUILDING its result (FlatMap forces the head of its source at
+			// construction time): the panic happens inside the lazy.Call cell of the enclosing FlatMap
+			inner = L(A("lflatmap"), L(A("lmap"), L(A("larg"), I(r.Range(1, 3))), GenF1(r, true)), I(NewID()),
+				L(A("larg"), I(r.Range(0, 2))))
 		}
 		return L(A("lflatmap"), sub(), I(NewID()), inner)
 	case 6:
@@ -263,11 +273,11 @@ func genLExpr(r *Rng, d int, inFlat bool) *Sx {
 	case 10:
 		return L(A("lzipidx"), sub())
 	}
-	return L(A("lscan"), sub(), I(r.Range(-2, 3)), GenF2(r, false))
+	return L(A("lscan"), sub(), I(r.Range(-2, 3)), GenF2(r, panicOK))
 }
 
-func genListOp(r *Rng) *Sx {
-	switch r.Intn(16) {
+func genListOp(r *Rng, panicOK bool) *Sx {
+	switch r.Intn(17) {
 	case 0, 1, 2, 3:
 		return L(A("toseq"))
 	case 4:
@@ -275,21 +285,23 @@ func genListOp(r *Rng) *Sx {
 	case 5:
 		return L(A("head"))
 	case 6:
-		return L(A("fold"), I(r.Range(-2, 3)), GenF2(r, false))
+		return L(A("fold"), I(r.Range(-2, 3)), GenF2(r, panicOK))
 	case 7:
-		return L(A("foldleft"), I(r.Range(-2, 3)), GenF2(r, false))
+		return L(A("foldleft"), I(r.Range(-2, 3)), GenF2(r, panicOK))
 	case 8:
-		return L(A("foldtry"), I(r.Range(-2, 3)), GenF2(r, false), I(r.Range(2, 4)), I(r.Range(1, 9)))
+		return L(A("foldtry"), I(r.Range(-2, 3)), GenF2(r, panicOK), I(r.Range(2, 4)), I(r.Range(1, 9)))
 	case 9:
-		return L(A("foldopt"), I(r.Range(-2, 3)), GenF2(r, false), I(r.Range(2, 4)))
+		return L(A("foldopt"), I(r.Range(-2, 3)), GenF2(r, panicOK), I(r.Range(2, 4)))
 	case 10:
 		return L(A("folderr"), I(NewID()), I(r.Range(2, 4)), I(r.Range(1, 9)))
 	case 11:
-		return L(A("foldr"), I(r.Range(-2, 3)), GenF2(r, false))
+		return L(A("foldr"), I(r.Range(-2, 3)), GenF2(r, panicOK))
 	case 12:
-		return L(A("foldrs"), GenP1(r, false), I(r.Range(-9, -5)))
+		return L(A("foldrs"), GenP1(r, panicOK), I(r.Range(-9, -5)))
 	case 13:
 		return L(A("reduce"), I(NewID()))
+	case 14:
+		return L(A("tailhd"))
 	}
 	n := r.Range(1, 10)
 	calls := []*Sx{A("iter")}
@@ -300,12 +312,58 @@ func genListOp(r *Rng) *Sx {
 }
 
 func genListCase(r *Rng) *Sx {
+	// one case in ten: callbacks inside the list closures (and of the terminal operations) may panic, and
+	// the script goes on operating on the SAME list afterwards (memo cells of panicked closures hand out
+	// the zero value: None / the nil list)
+	panicOK := r.Intn(10) == 0
 	n := r.Range(1, 4)
+	if panicOK {
+		n = r.Range(2, 6)
+		hist["list-panic-case"]++
+	}
 	ops := []*Sx{}
 	for i := 0; i < n; i++ {
-		ops = append(ops, genListOp(r))
+		ops = append(ops, genListOp(r, panicOK))
 	}
-	return L(A("list"), genLExpr(r, r.Range(0, 4), false), L(ops...))
+	if panicOK {
+		// after whatever panicked: Tail() of the list (forces the tail cell even if the head cell panicked)
+		ops = append(ops, L(A("tailhd")), L(A("toseq")))
+	}
+	return L(A("list"), genLExpr(r, r.Range(0, 4), false, panicOK), L(ops...))
+}
+
+// directForListPanic: callbacks may panic.  Whatever the first traversal did (returned or panicked), a
+// second traversal of the same list must not run any callback again: every cell whose closure was started
+// is done (with its value, or with the zero value if the closure panicked) — "evaluates each cell at most
+// once" of C12, evaluated directly.
+func directForListPanic(op *Sx) int {
+	checks := 0
+	res := guarded(func() string {
+		e := op.List[1]
+		var l Lst
+		if b := try1(func() any { l = buildList(e, 0); return nil }); b.panicked {
+			return ""
+		}
+		first := try1(func() any { return Show(l.ToSeq()) })
+		Log = Log[:0]
+		second := try1(func() any { return Show(l.ToSeq()) })
+		checks++
+		if len(Log) != 0 {
+			return "cells were evaluated again on the second traversal (first traversal panicked: " +
+				fmt.Sprint(first.panicked) + "): " + strings.Join(Log, ",")
+		}
+		checks++
+		if !first.panicked && (second.panicked || second.val != first.val) {
+			return "second ToSeq differs from the first"
+		}
+		return ""
+	})
+	if res == "timeout" {
+		recordFail(keyOf(op), op.String(), "does not terminate on a finite input")
+	} else if res != "" {
+		recordFail(keyOf(op), op.String(), res)
+	}
+	return checks
 }
 
 // evalEagerL: the eager fp.Seq computation of a list expression.
@@ -433,6 +491,8 @@ func listFn(op string) string {
 		return "Reduce"
 	case "toseq":
 		return "ToSeq"
+	case "tailhd":
+		return "Tail"
 	case "iter":
 		return "FromList"
 	}
